@@ -521,18 +521,38 @@ class C11(Spec):
     pid = "C11"
     level = "proof"
     design_ref = "DESIGN.md section 8 C11"
-    trusted = ["rests on the contracts of iter_errors and of the keyword functions (C01, C03) instantiated with the concrete, well-formed META_d as schema and an arbitrary JSON value as instance",
+    trusted = ["the verdict contracts of iter_errors, descend, is_type, of every keyword function whose keyword occurs in META_d and of equal / uniq are part of this check (the same obligations as C01 / C08), instantiated on paper with the concrete, well-formed META_d as schema and an arbitrary JSON value as instance",
                "the `$ref: \"#\"` / `#/definitions/...` references inside the metaschemas are resolved by the resolver functions: their transparency is C02's claim; until it is discharged the step from Vp(META_d, candidate) to the specification's V is covered by the bounded candidate sweep",
                "the independent evaluator the property asks for is the executable spec (spec/drafts.py with spec/pyops.py), itself checked against the official suite in the thorough tier"]
     assumptions = ["termination of metaschema validation: every $ref of the four files sits under an applicator that descends into the candidate (read off the files)"]
     explanation = "check_schema is proved to return normally exactly when cls(META_SCHEMA).iter_errors(candidate) is empty and otherwise to raise SchemaError.create_from(first error) and nothing else; the closed facts about the four files (self-acceptance, every $ref designates a schema in the same document, ids present) are decided by evaluation."
 
     def tasks(self, root, tier):
-        from contracts import tasks_entry
-        return [t for t in tasks_entry.entry_tasks(root, _tmo(tier)) if t.which in ("check_schema", "create_from")]
+        from contracts import tasks_entry, tasks_utils
+        from pyvc import extract
+        own = [t for t in tasks_entry.entry_tasks(root, _tmo(tier)) if t.which in ("check_schema", "create_from")]
+        # the chain that carries the property: check_schema == V(META_d, candidate) needs the verdict contract of
+        # every keyword META_d uses (and of equal / uniq behind enum / uniqueItems) and of the dispatch loop
+        repo = extract.Repo(root)
+
+        def keys(x, acc):
+            if isinstance(x, dict):
+                acc.update(x)
+                for v in x.values():
+                    keys(v, acc)
+            elif isinstance(x, list):
+                for v in x:
+                    keys(v, acc)
+            return acc
+        used = {d: keys(repo.schemas[d], set()) for d in drafts.DRAFTS}
+        kw = [t for t in tasks_keywords.keyword_tasks(root, _tmo(tier)) if t.k in used[t.d]]
+        return own + kw + tasks_utils.util_tasks(root, _tmo(tier)) + \
+            tasks_core.core_tasks(root, 2 * _tmo(tier), which=("iter_errors", "descend", "is_type"))
 
     def select(self, ob, r):
-        return True
+        if r["task"].startswith(("entry:", "validators:check_schema", "exceptions:")) or "check_schema" in r["task"] or "create_from" in r["task"]:
+            return True
+        return ob["kind"] in ("F", "P", "L") and "/F/structure" not in ob["name"]
 
     def failure_kinds(self):
         return ("F", "S")
